@@ -178,13 +178,13 @@ pub fn amplified(rng: &mut Rng) -> String {
     // Executable definitions are only validated against a *valid* schema: half of the documents
     // draw from the templates that keep the type system valid, so that the operation-side rules
     // actually run; the other half mixes freely (type-system rules, builder, orphan extensions).
-    const KEEP_SCHEMA_VALID: [u64; 14] = [4, 5, 6, 10, 11, 12, 15, 16, 17, 18, 19, 20, 21, 22];
+    const KEEP_SCHEMA_VALID: [u64; 15] = [4, 5, 6, 10, 11, 12, 15, 16, 17, 18, 19, 20, 21, 22, 23];
     let exec_class = rng.chance(1, 2);
     for _ in 0..templates {
         picked.push(if exec_class {
             *rng.pick(&KEEP_SCHEMA_VALID)
         } else {
-            rng.below(23)
+            rng.below(24)
         });
     }
     let mut ops = String::new();
@@ -518,6 +518,31 @@ pub fn amplified(rng: &mut Rng) -> String {
                         ["a", "b", "e"][i % 3]
                     );
                 }
+            }
+            23 => {
+                // an interface hierarchy, valid: many objects behind a base interface, some through
+                // a derived interface, deprecated members, repeatable directives, arguments with
+                // defaults — what full introspection lists (possibleTypes, interfaces, args, …)
+                let _ = writeln!(s, "interface Base{n} {{ id: ID! }}");
+                let _ = writeln!(s, "interface Mid{n} implements Base{n} {{ id: ID! m(a: Int = 1, b: [String!] = [\"x\"]): Int }}");
+                let _ = writeln!(s, "interface Leafy{n} implements Mid{n} & Base{n} {{ id: ID! m(a: Int = 1, b: [String!] = [\"x\"]): Int l: Int @deprecated }}");
+                let _ = writeln!(s, "directive @rep{n}(k: Int = {n}) repeatable on OBJECT | FIELD_DEFINITION | ENUM_VALUE");
+                for i in 0..n {
+                    match i % 3 {
+                        0 => {
+                            let _ = writeln!(s, "type Obj{n}x{i} implements Mid{n} & Base{n} @rep{n} @rep{n}(k: {i}) {{ id: ID! m(a: Int = 1, b: [String!] = [\"x\"]): Int }}");
+                        }
+                        1 => {
+                            let _ = writeln!(s, "type Obj{n}x{i} implements Base{n} {{ id: ID! own{i}: Int @deprecated(reason: \"r{i}\") }}");
+                        }
+                        _ => {
+                            let _ = writeln!(s, "type Obj{n}x{i} implements Leafy{n} & Mid{n} & Base{n} {{ id: ID! m(a: Int = 1, b: [String!] = [\"x\"]): Int l: Int }}");
+                        }
+                    }
+                    members.push(format!("Obj{n}x{i}"));
+                }
+                let _ = writeln!(s, "extend type Query {{ base{n}: Base{n} mid{n}: Mid{n} }}");
+                let _ = writeln!(ops, "query Hier{n} {{ base{n} {{ id ... on Mid{n} {{ m ... on Leafy{n} {{ l }} }} }} }}");
             }
             _ => {
                 // fragments on undefined / wrong types, spreads that cannot apply, cycles
